@@ -28,7 +28,9 @@ ALSO = {"C19-2": ["C15"], "C07-3": ["C15"], "C09-3": ["C16"],
         # round 3
         "C01-6": ["C08"], "C03-6": ["C17"],
         # round 4
-        "C20-7": ["C15"]}
+        "C20-7": ["C15"],
+        # round 5
+        "C01-10": ["C08"]}
 
 
 def run(check, patch, tier, seed="1"):
